@@ -118,6 +118,9 @@ def gen(tier, rng, harness=None, driver=None):
     from .modprops import hx
     for kind, text in localgen.zero_spellings():
         lines.append("!mod.mustfail - %s" % hx(text))
+    for kind, text in localgen.empty_quoted_spellings():
+        lines.append("!mod.accept - %s" % hx(text))
+        lines.append("!mod.stable - %s" % hx(text))
     # explicit parameter IDs of DECLARATIONS: LLVM's numberings are accepted (and printed, and read again), every other one is rejected — not accepted and left
     # for the printer to fail on
     for kind, text, ok in localgen.declaration_numberings() + localgen.global_numberings():
